@@ -76,13 +76,21 @@ def build(reg):
         return f
     reg.external("hs.drop", bump("n_drop"))
     reg.external("hs.cancel", bump("n_cancel"))
-    reg.external("hs.call_later", lambda ex, state, args, kwargs, sv: (bump("n_timers")(ex, state, args, kwargs, sv),
-                                                                       ex.reg.fresh_obj(ex, state, "HsTimer", "timer"))[1])
+    def ext_hs_call_later(ex, state, args, kwargs, sv):
+        """call_later(delay, fn): a fresh handle remembering the delay and which callback it will run"""
+        bump("n_timers")(ex, state, args, kwargs, sv)
+        r = ex.reg.fresh_obj(ex, state, "HsTimer", "timer")
+        o = state.heap[r.oid]
+        d = args[0]
+        o.fields["delay"] = d if isinstance(d, VReal) else VReal(z3.ToReal(ex.num(d)))
+        o.fields["kind"] = VInt({"_sendAutoPing": 5, "onOpenHandshakeTimeout": 1}.get(getattr(args[1], "name", None), 0))
+        return r
+    reg.external("hs.call_later", ext_hs_call_later)
     reg.external("txaio.as_future", lambda ex, state, args, kwargs, sv: (bump("n_onconnect")(ex, state, args, kwargs, sv),
                                                                          VOpaque(fresh_name("onconnect_future")))[1])
     reg.external("txaio.add_callbacks", lambda ex, state, args, kwargs, sv: VNone)
     models.CLASS_MODELS["ConnectionResponse"] = lambda ex, state, args, kwargs: VOpaque(fresh_name("response"))
-    reg.shape("HsTimer", fields={}, methods={"cancel": "hs.cancel"})
+    reg.shape("HsTimer", fields={"delay": "real", "kind": "int"}, methods={"cancel": "hs.cancel"})
     reg.shape("HsBatched", fields={}, methods={"call_later": "hs.call_later"})
     reg.shape("CliFactory", fields={"isServer": "const:False", "protocols": "list:str", "_batched_timer": "obj:HsBatched"})
     reg.shape("HsClient", cls=CLI, fields={
@@ -90,10 +98,11 @@ def build(reg):
         "http_headers": "dict:str->str", "websocket_key": "bytes", "version": "int", "websocket_version": "int",
         "factory": "obj:CliFactory", "websocket_extensions_in_use": "any", "_perMessageCompress": "none",
         "websocket_protocol_in_use": "opt:str", "openHandshakeTimeoutCall": "opt:obj:HsTimer", "autoPingInterval": "real",
-        "autoPingPendingCall": "any", "peer": "any", "inside_message": "bool", "current_frame": "any",
+        "autoPingTimeout": "real", "openHandshakeTimeout": "real", "closeHandshakeTimeout": "real",
+        "autoPingPendingCall": "opt:obj:HsTimer", "peer": "any", "inside_message": "bool", "current_frame": "any",
         "trackedTimings": "any", "is_open": "any", "wasNotCleanReason": "opt:str"},
         methods={"dropConnection": "hs.drop", "_onConnect": "noop", "_onOpen": "noop", "consumeData": "noop",
-                 "_fail_connection": "noop", "_sendAutoPing": "noop"})
+                 "_fail_connection": "noop"})
     reg.external("noop", lambda ex, state, args, kwargs, sv: VNone)
     KEYS = ["upgrade", "connection", "sec-websocket-accept", "sec-websocket-protocol", "sec-websocket-extensions"]
     reg.contract(P + ":parseHttpHeader", params={"data": "bytes"}, returns="tuple:str,dict:str->str,dict:str->int",
@@ -127,7 +136,11 @@ def build(reg):
             # the octets that follow the handshake are kept for the frame decoder, exactly
             "implies(self.state == 3, self.data == old(self.data)[%s + 4:])" % END,
             "implies(self.state == 3, ghost.n_onconnect == old(ghost.n_onconnect) + 1 and "
-            "self.openHandshakeTimeoutCall is None)"],
+            "self.openHandshakeTimeoutCall is None)",
+            # (C17) once open, automatic pings are scheduled with the configured interval -- exactly when they are configured
+            "implies(self.state == 3 and self.autoPingInterval != 0, self.autoPingPendingCall is not None and "
+            "self.autoPingPendingCall.delay == self.autoPingInterval and self.autoPingPendingCall.kind == 5)",
+            "implies(self.state == 3 and self.autoPingInterval == 0, self.autoPingPendingCall is old(self.autoPingPendingCall))"],
         loops={"target:c": {"index": "_i", "invariant": ["not connectionUpgrade"], "modifies": [], "pure_calls": True}},
         inline_calls=[CLI + ".failHandshake"], **common)
 
@@ -398,6 +411,28 @@ cases.append(("subprotocol selected, none announced", (GOOD % (accept(k), "Sec-W
 cases.append(("valid, none announced", (GOOD % (accept(k), "")).encode(), True, ()))
 cases.append(("first of two announced", (GOOD % (accept(k), "Sec-WebSocket-Protocol: p1\r\n")).encode(), True))
 bad = []
+# once open, automatic pings are scheduled with the configured interval (and not at all when switched off)
+class RecTimer:
+    def __init__(self): self.calls = []
+    def call_later(self, delay, fn, *a, **k):
+        self.calls.append((delay, getattr(fn, "__name__", str(fn))))
+        class H:
+            def cancel(s): pass
+        return H()
+for interval, timeout in ((0, 5), (7, 3), (2.5, 0), (4, 4)):
+    p = client()
+    rec = RecTimer(); p.factory._batched_timer = rec
+    p.autoPingInterval, p.autoPingTimeout = interval, timeout
+    data = (GOOD % (accept(k), "")).encode()
+    try:
+        p.data = data; p.processHandshake()
+    except Exception as e:
+        bad.append({"case": "autoping arming", "side": "client", "escaped": repr(e)}); continue
+    pings = [c for c in rec.calls if c[1] == "_sendAutoPing"]
+    want = [(interval, "_sendAutoPing")] if interval else []
+    if p.state == p.STATE_OPEN and pings != want:
+        bad.append({"case": "autoping arming", "side": "client", "autoPingInterval": interval, "autoPingTimeout": timeout,
+                    "scheduled": pings, "expected": want})
 for name, data, should_open, *conf in cases:
     for cut in sorted({len(data), 1, len(data) // 2, len(data) - 1}):
         p = client(*conf)
